@@ -48,6 +48,8 @@ def run_case(case, res):
             n = t.count
             res.case(case, nontrivial=n >= 4 and t.count_unique < n)
             shared_vm = None
+            # half of the cases hand the *same* dict to every load (it still holds the previous file's header then)
+            fmeta_shared = {} if (case["seed"] + sum(case["tuples"])) % 2 else None
             for ti in case["tuples"]:
                 km_name, vm_name, comp_name, tgt = ALL[ti]
                 km = sergen.key_map_for(case["flavour"], km_name)
@@ -60,7 +62,7 @@ def run_case(case, res):
                 res.count("round_trips")
                 res.count(f"tuple:{ti}")
                 try:
-                    fmeta = {}
+                    fmeta = {} if fmeta_shared is None else fmeta_shared
                     if tgt == "path":
                         pth = os.path.join(tmp, "tree.nutree")
                         t.save(pth, compression=comp, meta=user_meta, key_map=km, value_map=vm, **save_kw)
